@@ -309,6 +309,8 @@ func checkC18(r *Run) propMeta {
 	checkInjectiveNaming(r, p)
 	checkNumberPreservingDecode(r, p)
 	checkLineLimitAgreement(r, p)
+	checkNodeIDsNotNarrowed(r, "C18-R9-ids-not-narrowed", p)
+	checkEndpointArgumentRoles(r, p)
 	r.Floor("C18-R8-number-preserving-decode", 1)
 	r.Floor("C18-R1-codec-table", 4)
 	r.Floor("C18-R1-record-fields", 7)
